@@ -5,7 +5,7 @@
 //! `F <json>` for a case that does not conform, `DONE <cases> <failed>` at the end.
 use serde_json::Value;
 use std::io::{BufRead, Write};
-use tdverif::cells::{Elem, Tok, Zst, B1, B3, K32, W1K, W80};
+use tdverif::cells::{Elem, Tok, Zst, A128, B1, B3, K32, W1K, W4K, W80, Z0};
 use tdverif::util::silence_panics;
 
 fn main() {
@@ -56,6 +56,7 @@ fn main() {
                     "zst" => tdverif::hist::run_case::<Zst>(steps, cap, &mut events),
                     "tok" => tdverif::hist::run_case::<Tok>(steps, cap, &mut events),
                     "w1k" => tdverif::hist::run_case::<W1K>(steps, cap, &mut events),
+                    "w4k" => tdverif::hist::run_case::<W4K>(steps, cap, &mut events),
                     e => panic!("unknown elem {e}"),
                 };
                 if let Some(lf) = logfile.as_mut() {
@@ -76,6 +77,9 @@ fn main() {
                     "b1" => tdverif::acc::run_case::<B1>(&case, &mut events),
                     "w80" => tdverif::acc::run_case::<W80>(&case, &mut events),
                     "w1k" => tdverif::acc::run_case::<W1K>(&case, &mut events),
+                    "w4k" => tdverif::acc::run_case::<W4K>(&case, &mut events),
+                    "z0" => tdverif::acc::run_case::<Z0>(&case, &mut events),
+                    "a128" => tdverif::acc::run_case::<A128>(&case, &mut events),
                     "zst" => tdverif::acc::run_case::<Zst>(&case, &mut events),
                     e => panic!("unknown elem {e}"),
                 };
